@@ -14,7 +14,14 @@ TShare == /\ IsEvent("share")
                     /\ AllSame(Ev.runs),
                     Redistribute(nodes, total))
 
+\* 64-bit-scale inputs: amounts logged in units of U (floor); nodes[i] = [req, min, guar, lent, wpos]
+TShareCoarse == /\ IsEvent("shareCoarse")
+                /\ UNCHANGED vars
+                /\ Expect(/\ \A k \in 1..Len(Ev.runs) : Len(Ev.runs[k]) = Len(nodes) /\ CoarseOK(nodes, total, Ev.runs[k])
+                          /\ AllSame(Ev.runs),
+                          [note |-> "coarse units: bounds, sum <= total, nothing undistributed while a weighted sibling is short"])
+
 TraceInit == \E i \in Starts : TraceStart(i) /\ nodes = Trace[i].nodes /\ total = Trace[i].total
-TraceNext == TShare \/ (SegDone /\ UNCHANGED vars)
+TraceNext == TShare \/ TShareCoarse \/ (SegDone /\ UNCHANGED vars)
 TraceSpec == TraceInit /\ [][TraceNext]_<<vars, tvars>>
 =============================================================================
